@@ -236,21 +236,40 @@ func RunCheck(p Prop, o Options) int {
 					r, sp = runInSubproc(sp, o.Self, p.ID(), j.c)
 					if r.Crash != "" {
 						if spl, ok := p.(Splitter); ok {
+							// attribute the crash: run the members of the batch one by one, splitting
+							// again as long as a crashing member can be split
+							var attribute func(c json.RawMessage, depth int) Result
+							attribute = func(c json.RawMessage, depth int) Result {
+								var sr Result
+								sr, sp = runInSubproc(sp, o.Self, p.ID(), c)
+								if sr.Crash != "" && depth < 4 {
+									if subs := spl.Split(c); len(subs) > 0 {
+										var agg Result
+										for _, sc := range subs {
+											x := attribute(sc, depth+1)
+											agg.Viols = append(agg.Viols, x.Viols...)
+											agg.Evals += x.Evals
+											agg.Nontriv += x.Nontriv
+											agg.Outcomes = append(agg.Outcomes, x.Outcomes...)
+										}
+										return agg
+									}
+								}
+								for i := range sr.Viols {
+									if len(sr.Viols[i].Case) == 0 {
+										sr.Viols[i].Case = c
+									}
+								}
+								return sr
+							}
 							if subs := spl.Split(j.c); len(subs) > 0 {
-								// attribute the crash: run the members of the batch one by one
 								var agg Result
 								for _, sc := range subs {
-									var sr Result
-									sr, sp = runInSubproc(sp, o.Self, p.ID(), sc)
-									for i := range sr.Viols {
-										if len(sr.Viols[i].Case) == 0 {
-											sr.Viols[i].Case = sc
-										}
-									}
-									agg.Viols = append(agg.Viols, sr.Viols...)
-									agg.Evals += sr.Evals
-									agg.Nontriv += sr.Nontriv
-									agg.Outcomes = append(agg.Outcomes, sr.Outcomes...)
+									x := attribute(sc, 1)
+									agg.Viols = append(agg.Viols, x.Viols...)
+									agg.Evals += x.Evals
+									agg.Nontriv += x.Nontriv
+									agg.Outcomes = append(agg.Outcomes, x.Outcomes...)
 								}
 								r = agg
 							}
